@@ -5,6 +5,7 @@ import (
 	"go/constant"
 	"go/token"
 	"go/types"
+	"os"
 	"sort"
 	"strings"
 
@@ -1299,6 +1300,9 @@ func rulePreExits(r *core.Reporter) {
 	if !okL || !loopCoversAll(fn, mark) {
 		r.Violated("preprocess/final-loop", p.InstrPos(mark), "requests are not built in a loop over the whole work list")
 		return
+	}
+	if os.Getenv("ZC_DEBUG_PRE") != "" {
+		fmt.Fprintf(os.Stderr, "pre-exits: mark=%s loop.If=%s atom=%s exitEdge=%d\n", p.InstrPos(mark), p.InstrPos(loop.If), describeAtom(loop.Atom), loop.EdgeWhen(false))
 	}
 	isElem := func(v ssa.Value) bool { _, _, e := elemLoad(ir.Strip(v)); return e }
 	rets := ir.Returns(fn)
